@@ -13,7 +13,7 @@ LEVEL_TEXT = ("Static structural proof of necessary conditions: (R3.1) the regis
               "(R3.2) the remainder returned by the resolver is a slice of the original-case text, never of the "
               "case-folded working copy (integer indices excepted). Identity of the resolved node for every spelling, "
               "inverse/idempotent conversions and takes-value switching are NOT decided.")
-LEVEL_EXTRA = 'Added after the seeded evaluation: (R3.3) namespace prefixes are removed by length, never with the character-set strip family. (R3.4) the tag resolver takes no position (find/len/slice/split) on a case-folded copy of the tag.'
+LEVEL_EXTRA = 'Added after the seeded evaluation: (R3.3) namespace prefixes are removed by length, never with the character-set strip family. (R3.4) the tag resolver takes no position (find/len/slice/split) on a case-folded copy of the tag. (R3.5) HedTag hands its namespace to the lookup functions as the namespace argument.'
 
 
 def _value_tainted(expr, tainted_names):
@@ -217,6 +217,27 @@ def run(ctx):
 
     ctx.rule("R3.3", "namespace prefixes are removed by length, never with the character-set strip family")
     strip_family_lint(ctx, "R3.3", ["schema.hed_schema", "models.hed_tag", "schema.hed_schema_group"])
+
+    # ---------------- R3.5: lookups made for a tag carry the tag's namespace as the namespace argument
+    ctx.rule("R3.5", "HedTag hands its schema namespace to the schema's lookup functions as the namespace argument")
+    htag = prog.find_class("HedTag")
+    n_ns = 0
+    for m in htag.methods.values():
+        for c in walk_no_nested(m.node):
+            if not (isinstance(c, ast.Call) and isinstance(c.func, ast.Attribute) and c.func.attr in ("get_tag_entry", "find_tag_entry")):
+                continue
+            n_ns += 1
+            ctx.saw(m)
+            pos = 2 if c.func.attr == "get_tag_entry" else 1
+            arg = next((kw.value for kw in c.keywords if kw.arg == "schema_namespace"), None)
+            if arg is None and len(c.args) > pos:
+                arg = c.args[pos]
+            ok = arg is not None and any(isinstance(x, ast.Attribute) and "namespace" in x.attr for x in ast.walk(arg))
+            ctx.check(ok, "R3.5", m.qualname, c, loc(m, c),
+                      "the lookup is made without the tag's namespace as the namespace argument (the schema compares that argument, "
+                      "default '', with its own namespace and answers None on a mismatch): under `xx:8.3.0` the tag is no longer "
+                      "identified after its base is swapped (Def → Def-expand)", desc="%s passes the namespace" % m.short)
+    ctx.floor("R3.5", "schema lookups made by HedTag", n_ns, 2)
 
 
 def _const_suffix_slice(v, d, folded):
